@@ -1,8 +1,12 @@
 """Property id -> check function."""
 import c20
 import c19
+import life
 
 CHECKS = {
     "C20": c20.check,
     "C19": c19.check,
+    "C09": life.check,
+    "C10": life.check,
+    "C11": life.check,
 }
